@@ -1,5 +1,6 @@
 import KinModel.Drv.Util
 import KinModel.Reads
+import KinModel.ReadsMedium
 import Std.Data.HashMap
 open Lean
 namespace KinModel.Drv.C11
@@ -115,7 +116,28 @@ def handleHistory (j : Json) : Json :=
     ("excl", jstrs (if anyForeign then ["ForeignBase"] else [])),
     ("branches", jstrs branches)]
 
+def renderMedium (m : Medium) : String :=
+  match m with
+  | .unsupported => "unsupported"
+  | .file p => "file:" ++ p
+  | .http u => "http:" ++ u.scheme ++ "|" ++ u.host ++ "|" ++ u.path
+
+/-- a reader case: "rd" = {s, h, p}: the library's own readers on one location -/
+def handleReader (rd : Json) : Json :=
+  let l : RLoc := ⟨getStr rd "s", getStr rd "h", getStr rd "p"⟩
+  let m := defaultRead l
+  let mf := readFromURIs [readFromFile, readFromHTTP] l
+  let mo := readFromURIs [readFromFile] l
+  let br (m : Medium) : String := match m with | .unsupported => "reader.unsupported" | .file _ => "reader.file" | .http _ => "reader.http"
+  jobj [
+    ("model", jobj [("medium", Json.str (renderMedium m)), ("fileFirst", Json.str (renderMedium mf)), ("fileOnly", Json.str (renderMedium mo))]),
+    ("spec", jobj [("fileOK", Json.bool (faithfulB (.file l.path) l)), ("httpOK", Json.bool (faithfulB (.http l) l)),
+                   ("modelOK", Json.bool (faithfulB m l && faithfulB mf l && faithfulB mo l))]),
+    ("excl", jstrs []),
+    ("branches", jstrs ([br m, "reader"] ++ (if l.host != "" then ["reader.host"] else []) ++ (if l.scheme != "" then ["reader.scheme"] else [])))]
+
 def handle (j : Json) : Json :=
+  if !isNull j "rd" then handleReader (getD j "rd" Json.null) else
   if !(getArr j "steps").isEmpty then handleHistory j else
   let inp := parseInput j
   let (st, ok) := load inp fuel
